@@ -215,7 +215,7 @@ class Interp:
 
     # ------------------------------------------------------------- values
     def _default_K(self):
-        K = {-3, -2, -1, 0, 1, 2, 3, 4, 9, 22, 34}
+        K = {-3, -2, -1, 0, 1, 2, 3, 4, 9, 15, 22, 34}       # 9 / 15: SIGKILL / SIGTERM
         for v in self.prog.consts.values():
             K.add(v)
         for v in self.prog.enumerators.values():
